@@ -43,12 +43,14 @@ func selfTest(ctx *core.Ctx) error {
 	c6.Outcome, c6.Reader, c6.PermsOut, c6.ContentOK = "autherr", false, []string{}, false
 	c7 := good[2] // failure, but a reader is returned
 	c7.Reader = true
-	recs = append(recs, c1, c2, c3, c4, c5, c6, c7)
+	c8 := good[0] // the Writer refuses an acceptable request
+	c8.Written, c8.Outcome, c8.Reader, c8.PermsOut, c8.ContentOK = false, "refused", false, []string{}, false
+	recs = append(recs, c1, c2, c3, c4, c5, c6, c7, c8)
 	bad, err := core.JudgeCases(ctx, core.TLCOpts{Dir: "crypt", Module: "Trace_StdSec", Cfg: "Trace_StdSec.cfg"}, forTLC(recs), 100, 1)
 	if err != nil {
 		return err
 	}
-	want := []int{4, 5, 6, 7, 8, 9, 10}
+	want := []int{4, 5, 6, 7, 8, 9, 10, 11}
 	if len(bad) != len(want) {
 		return core.Infra("self-test: corrupted records not singled out: rejected %v, want %v", bad, want)
 	}
@@ -57,7 +59,7 @@ func selfTest(ctx *core.Ctx) error {
 			return core.Infra("self-test: corrupted records not singled out: rejected %v, want %v", bad, want)
 		}
 	}
-	ctx.Logf("self-test (i): 7 corrupted records rejected, 4 intact records of the real code accepted")
+	ctx.Logf("self-test (i): 8 corrupted records rejected, 4 intact records of the real code accepted")
 
 	// (ii) defective variants of the decision procedure / bit algebra
 	for cfg, inv := range map[string]string{"MC_StdSec_neg_userfirst.cfg": "OutcomeOK", "MC_StdSec_neg_noempty.cfg": "OutcomeOK", "MC_StdSec_neg_forget.cfg": "PermsOK"} {
